@@ -567,7 +567,14 @@ class HeapFn(cxx2gal.LoopFn):
             if ctype(qual(a))[0] == "ptr" or ctype(qual(b))[0] == "ptr":       # opaque addresses
                 f = "c_eq" if n["opcode"] == "==" else "c_ne"
                 return self.E(a, lambda x: self.E(b, lambda y: k("(%s %s %s)" % (f, x, y))))
-        if kd in ("CallExpr", "CXXMemberCallExpr"):
+        op_event = False
+        if kd == "CXXOperatorCallExpr" and inn:       # an overloaded operator configured as an event with argument values (backupOutput << text)
+            try:
+                sp = self.calls.get(self.callee_name(inn[0]))
+                op_event = isinstance(sp, dict) and bool(sp.get("event")) and bool(sp.get("args"))
+            except Unsupported:
+                op_event = False
+        if kd in ("CallExpr", "CXXMemberCallExpr") or op_event:
             try:
                 spec0 = self.calls.get(self.callee_name(inn[0]))
             except Unsupported:
